@@ -6,5 +6,5 @@ MinDef == {"Z"}
 RichIf == {"0", "1", "A", "!A", "B", "!B", "A == B", "A == 1", "C", "!!B", "B == 0", "!A == B"}
 RichDef == {"Z", "A", "U"}
 NoExtras == {}
-ErrInc == {"error", "include"}
+ErrInc == {"error", "include", "cmtdir"}
 ====
